@@ -198,7 +198,7 @@ class ReducerSpec:
 
     def configs(self):
         for dt in (1.0, 0.5):
-            for dk in (1, 2, 3):
+            for dk in (0, 1, 2, 3):  # 0: the default of every reducer (a single slot)
                 yield {"dt": dt, "duration": dk * dt, "inplace": False, "inclusive": False}
 
     fresh_per_history = True
@@ -212,7 +212,7 @@ class ReducerSpec:
     def setters(self, cfg):
         for v in (1.0, 0.5, 0.75):
             yield ("dt", v)
-        for v in (1.0, 2.0, 3.0):
+        for v in (0.0, 1.0, 2.0, 3.0):
             yield ("duration", v)
         for v in (False, True):
             yield ("inplace", v)
